@@ -17,7 +17,7 @@ import (
 
 func c15Opts(ctx *Ctx) gen.EvOpts {
 	o := gen.EvOpts{Comments: true, OddComments: true, Padding: true, CustomText: true, CustomBinary: true, Media: true, Markers: true,
-		Records: true, RemoteRef: true, NilBig: true, NaNForms: true, FullUnicode: true, Chunked: true, WideBigFloat: true,
+		Records: true, RemoteRef: true, NilBig: true, NaNForms: true, FullUnicode: true, Chunked: true, MidCharSplit: true, WideBigFloat: true,
 		MaxDepth: 4, MaxArr: 40, Budget: 30}
 	if ctx.Thorough() {
 		o.MaxArr, o.Budget, o.MaxDepth = 400, 120, 6
